@@ -87,6 +87,12 @@ def near_miss(rng, p):
     alus = [k for k in starts if (ins[k][0] & 7) in (4, 7, 0, 1) and ins[k][0] not in (0x18,)]
     if alus:
         kinds += ['dst10']
+    stores = [k for k in starts if (ins[k][0] & 7) in (2, 3)]
+    if stores:
+        kinds += ['store-dst', 'store-dst']
+    cjumps = [k for k in jumps if ins[k][0] != 0x05]
+    if cjumps:
+        kinds += ['jump-dst']
     ends = [k for k in starts if ins[k][0] in (0xd4, 0xdc)]
     if ends:
         kinds += ['endian']
@@ -145,6 +151,10 @@ def near_miss(rng, p):
         k = rng.choice(jumps); ins[k][2] = rng.choice(wides) + 1 - (k + 1)
     elif kind == 'dst10':
         k = rng.choice(alus); ins[k][1] = (ins[k][1] & 0xf0) | (10 + rng.below(6))
+    elif kind == 'store-dst':                                   # r10 is a legal store base, r11..r15 do not exist
+        k = rng.choice(stores); ins[k][1] = (ins[k][1] & 0xf0) | (11 + rng.below(5))
+    elif kind == 'jump-dst':
+        k = rng.choice(cjumps); ins[k][1] = (ins[k][1] & 0xf0) | (10 + rng.below(6))
     elif kind == 'endian':
         k = rng.choice(ends); ins[k][3] = rng.choice([0, 8, 24, 48, 128, -16])
     elif kind == 'xadd-imm':
@@ -227,6 +237,15 @@ def gen_cases(chk):
     cases.append(Case(B.mov(0, 3) + B.ja(0) + B.EXIT, fam='ja0'))
     # wide load as the target of nothing but fall-through; second halves with arbitrary register bytes
     cases.append(Case(B.insn(0x18, 3, 0, 0, -1) + B.insn(0, 0, 0, 0, -1) + B.movr(0, 3) + B.EXIT, fam='lddw'))
+    # registers that do not exist (r11..r15) or may not be written (r10) in every supported opcode: refused by the verifier -- if a
+    # changed verifier lets one through, running it shows the interpreter indexing its 11-entry register file out of range
+    for o in sorted(SUPPORTED):
+        for d in ((10, 11, 12, 13, 14, 15) if thorough else (10, 11, 15)):
+            for sr in ((0, 1, 10, 11, 15) if thorough else (1, 11)):
+                body = B.insn(o, d, sr, -8 if (o & 7) in (1, 2, 3) else 0, 16 if o in (0xd4, 0xdc) else 0)
+                if o == 0x18:
+                    body += B.insn(0, 0, 0, 0, 0)
+                cases.append(Case(B.mov(0, 0) + B.mov(1, 0) + body + B.EXIT, mem=pk, fam='high-register'))
     # far jumps: over more than 32767 and 65535 instructions (program described, not spelled out)
     for n in ((33000, 66000) if thorough else (33000,)):
         p = B.ja(n) + B.mov(0, 1) * n + B.mov(0, 7) + B.ja(1) + B.EXIT + B.ja(-(n + 4))
